@@ -3,6 +3,7 @@
 package sasl
 
 import (
+	"errors"
 	"bytes"
 	"fmt"
 	"io"
@@ -171,6 +172,17 @@ func propC13(r *Run) {
 		}
 		f[i] = seededBytes(uint64(r.Choose("eseed", 1000)+i*31), n)
 	}
+	// an earlier Encode whose writer failed half-way (the peer hung up) must leave nothing
+	// behind that shows up in later messages
+	if r.Choose("failed-write-before", 3) == 0 {
+		fw := &failingWriter{okBytes: r.Choose("failed-write-after", 6)}
+		if r.Choose("failed-write-kind", 2) == 0 {
+			(&Response{Result: true, Message: "welcome stale-user"}).Encode(fw) //nolint
+		} else {
+			(&Request{"stale-user", "stale-password", "svc", "realm"}).Encode(fw) //nolint
+		}
+		r.Count("fault:writer-fails-mid-message")
+	}
 	req := Request{f[0], f[1], f[2], f[3]}
 	var buf bytes.Buffer
 	eerr := req.Encode(&buf)
@@ -325,4 +337,17 @@ func propC13(r *Run) {
 	}
 	r.Steps += nsched + 5
 	r.Sample(map[string]any{"request_input": desc, "schedules": nsched, "encoder_lengths": []int{len(f[0]), len(f[1]), len(f[2]), len(f[3])}, "response_msg_len": len(msg)})
+}
+
+// failingWriter accepts okBytes bytes and then fails every write (EPIPE-like).
+type failingWriter struct{ okBytes int }
+
+func (w *failingWriter) Write(p []byte) (int, error) {
+	if w.okBytes >= len(p) {
+		w.okBytes -= len(p)
+		return len(p), nil
+	}
+	n := w.okBytes
+	w.okBytes = 0
+	return n, errors.New("write: broken pipe")
 }
